@@ -65,13 +65,15 @@ static void do_sleep(int via, uint64_t us) {
  * moment a fiber on thread A calls a short sleep ---- */
 static int al_d_us, al_e_us, al_sleep_us, al_reps;
 static volatile int al_started;
-static int al_both_sleep;
+static int al_both_sleep, al_timer_stall;
 static uint64_t al_until_ns; /* both-sleep mode: both computations end at this instant (chosen tick phase) */
 static void* al_finisher(void* p) {
   (void)p;
   al_started = 1;
   if (al_both_sleep) sim_compute_until(al_until_ns);
   else sim_compute((uint64_t)al_d_us * 1000);
+  /* this kernel thread will read the (coalesced) timer next: optionally it is descheduled right after that read */
+  if (al_timer_stall) sim_stall_after_timer_read(al_timer_stall);
   sim_progress();
   if (al_both_sleep) { /* both kernel threads were busy for several ticks; both fibers now sleep */
     uint64_t t0 = g_before();
@@ -101,6 +103,7 @@ static void run_aligned(sim_cfg_t c) {
   al_sleep_us = wl_pick(2) ? 300 : 999;
   al_reps = wl_int(1, 2);
   al_both_sleep = wl_pct(50);
+  al_timer_stall = wl_pct(50) ? wl_int(1, 20) * 100 : 0;
   if (al_both_sleep) {
     al_e_us = wl_pct(60) ? 0 : wl_int(0, 200);
     /* the timer started ticking at (about) time 0 with a 5 ms period: pick the phase at which both wake up */
